@@ -9,5 +9,7 @@ CONSTANTS
   Depth = 4
   CodeIds = {}
   Blocks = FALSE
+  Ops = {"setbalance", "setvalue", "deletevalue", "initcontract", "touch", "setblock", "deploy", "accept", "snapshot", "reset", "clearcache", "flush", "reload"}
+  SnapSlots = {1}
   HistOn = TRUE
 INVARIANT Emit
